@@ -260,7 +260,7 @@ Proof.
   rewrite nth_error_app1; auto. eapply nth_some_lt; eauto.
 Qed.
 
-Lemma inv_new_w s k s' : Inv s -> step s (ENewW k) = Some s' -> Inv s'.
+Lemma inv_new_w s k s' : Inv s -> step1 s (ENewW k) = Some s' -> Inv s'.
 Proof.
   intros (G & C & F & (W1 & W2 & W3) & (R1 & R2 & R3 & R4 & R5)) H. simpl in H. inv_some H.
   split; [exact G|]. split; [exact C|]. split; [exact F|]. split.
@@ -276,7 +276,7 @@ Proof.
     + intros x Hx. specialize (R5 x Hx). rewrite app_length. simpl. lia.
 Qed.
 
-Lemma inv_new_f s k s' : Inv s -> step s (ENewF k) = Some s' -> Inv s'.
+Lemma inv_new_f s k s' : Inv s -> step1 s (ENewF k) = Some s' -> Inv s'.
 Proof.
   intros (G & C & F & W & (R1 & R2 & R3 & R4 & R5)) H. simpl in H. inv_some H.
   split; [exact G|]. split.
@@ -339,7 +339,7 @@ Proof.
   repeat split; auto.
 Qed.
 
-Lemma inv_add s n v s' : Inv s -> step s (EAdd n v) = Some s' -> Inv s'.
+Lemma inv_add s n v s' : Inv s -> step1 s (EAdd n v) = Some s' -> Inv s'.
 Proof.
   intros (G & C & F & W & R) H. simpl in H. case_hyp H. inv_some H.
   split; [apply gb_do_add; auto|]. split.
@@ -348,7 +348,7 @@ Proof.
     eapply rpart_same_obs; eauto. apply broken_do_add.
 Qed.
 
-Lemma inv_sub s n v s' : Inv s -> step s (ESub n v) = Some s' -> Inv s'.
+Lemma inv_sub s n v s' : Inv s -> step1 s (ESub n v) = Some s' -> Inv s'.
 Proof.
   intros (G & C & F & W & R) H. simpl in H. case_hyp H. inv_some H.
   split; [apply gb_do_sub; auto|]. split.
@@ -358,7 +358,7 @@ Proof.
     eapply rpart_same_obs; eauto. intros Hb. apply broken_do_sub in Hb. tauto.
 Qed.
 
-Lemma inv_user_set s s' : Inv s -> step s EUserSet = Some s' -> Inv s'.
+Lemma inv_user_set s s' : Inv s -> step1 s EUserSet = Some s' -> Inv s'.
 Proof.
   intros (G & C & F & W & R) H. simpl in H. inv_some H.
   split; [apply gb_user_set; auto|]. split.
@@ -371,7 +371,7 @@ Qed.
 
 (* ---- SetImpl's exchange -------------------------------------------------------------------------------- *)
 
-Lemma inv_xchg s old s' : Inv s -> step s (EXchg old) = Some s' -> Inv s'.
+Lemma inv_xchg s old s' : Inv s -> step1 s (EXchg old) = Some s' -> Inv s'.
 Proof.
   intros (G & C & F & (W1 & W2 & W3) & R) H. simpl in H.
   destruct (pend s) as [|p] eqn:Ep; [discriminate|].
@@ -415,7 +415,7 @@ Qed.
 Ltac fut_fields r :=
   destruct r as [fk0 fw0 fa0 fp0 fv0 fr0 fh0]; simpl in *.
 
-(* every step of a future keeps its local invariant, keeps the kind, and never un-completes it *)
+(* every step1 of a future keeps its local invariant, keeps the kind, and never un-completes it *)
 Lemma step_f_local s j r e s' :
   finv r = true -> nth_error (fs s) j = Some r -> step_f s j r e = Some s' ->
   exists r', (fs s' = upd j r' (fs s) \/ (fs s' = fs s /\ r' = r)) /\ finv r' = true /\ fk r' = fk r /\
@@ -531,7 +531,7 @@ Proof.
 Qed.
 
 (* ---- waiters: the frame ------------------------------------------------------------------------------
-   Every step of waiter w (or of SetImpl on waiter w's job) produces a state of this shape; the obligations are
+   Every step1 of waiter w (or of SetImpl on waiter w's job) produces a state of this shape; the obligations are
    about w alone. *)
 
 Definition wstate (s : st) (h' : hd) (t' : list nat) (ic' : option nat) (w : nat) (r' : wrec) (u' : bool)
